@@ -845,8 +845,34 @@ func TestC19(t *testing.T) {
 				return
 			}
 		}
-		want, runErr, fmtErr := c19LocalFormatted(ctx, p.direct, c.q, c.format)
-		status, got, late, rerr := c19RawQuery(ctx, p, c.q, c.format, c.ctrl)
+		// both queries under a generous watchdog: a query that never returns (the runtime can
+		// deadlock while cancelling) must become a report, not a stuck check
+		type both struct {
+			want, got      []byte
+			runErr, fmtErr error
+			status         int
+			late           string
+			rerr           error
+		}
+		resCh := make(chan both, 1)
+		go func() {
+			var b both
+			b.want, b.runErr, b.fmtErr = c19LocalFormatted(ctx, p.direct, c.q, c.format)
+			b.status, b.got, b.late, b.rerr = c19RawQuery(ctx, p, c.q, c.format, c.ctrl)
+			resCh <- b
+		}()
+		var b both
+		select {
+		case b = <-resCh:
+		case <-time.After(5 * time.Minute):
+			mu.Lock()
+			run.Eval(fmt.Sprint("query", c))
+			mu.Unlock()
+			violation(fmt.Sprintf("query format=%s ctrl=%v object=%s symptom=query-does-not-return-within-5-minutes", c.format, c.ctrl, c.corrupt), map[string]any{"query": c.q, "format": c.format, "ctrl": c.ctrl, "object_damage": c.corrupt})
+			return
+		}
+		want, runErr, fmtErr := b.want, b.runErr, b.fmtErr
+		status, got, late, rerr := b.status, b.got, b.late, b.rerr
 		mu.Lock()
 		run.Eval(fmt.Sprint("query", c))
 		mu.Unlock()
